@@ -182,3 +182,21 @@ Proof.
   { induction l as [|p l IH]; intros rest; cbn [flat_map map app]; [reflexivity|]. unfold f_vtbl at 1. cbn [app shape]. f_equal. apply IH. }
   rewrite G, mixed_fst. reflexivity.
 Qed.
+
+(* ---- cglue_impl_group: the vtables enabled for a type are exactly the traits listed for it ---- *)
+Lemma mask_of_perm nm l1 l2 : Permutation l1 l2 -> mask_of nm l1 = mask_of nm l2.
+Proof.
+  intros P. induction P as [|x l l' P IH|x y l|l l' l'' P1 IH1 P2 IH2]; cbn [mask_of fold_right]; auto.
+  - unfold mask_of in IH. now rewrite IH.
+  - rewrite <- !Z.lor_assoc. f_equal. apply Z.lor_comm.
+  - congruence.
+Qed.
+
+Theorem impl_enables_listed nm listed :
+  Permutation (impl_enabled listed) listed /\ length (impl_enabled listed) = length listed /\
+  mask_of nm (impl_enabled listed) = mask_of nm listed.
+Proof.
+  unfold impl_enabled. pose proof (sort_perm listed) as P. split; [now apply Permutation_sym|]. split.
+  - symmetry. now apply Permutation_length.
+  - symmetry. now apply mask_of_perm.
+Qed.
